@@ -92,6 +92,12 @@ func doubleUseMutants(s *chain.Sim, p chain.BlockPlan, rng *rand.Rand) []mutant 
 		ms.Transactions = append(ms.Transactions, chain.CopySupp(consensus.V1BlockSupplement{Transactions: []consensus.V1TransactionSupplement{p.Supp.Transactions[i]}}).Transactions[0])
 		s.Seal(&mb, p.Miner)
 		out = append(out, mutant{kind + ":other-txn", mb, ms})
+		// the very same transaction (same id, same signatures) listed twice, fees paid out twice
+		mb2, ms2 := chain.DeepCopyBlock(b), chain.CopySupp(p.Supp)
+		mb2.Transactions = append(mb2.Transactions, cloneV1(t))
+		ms2.Transactions = append(ms2.Transactions, chain.CopySupp(consensus.V1BlockSupplement{Transactions: []consensus.V1TransactionSupplement{p.Supp.Transactions[i]}}).Transactions[0])
+		s.Seal(&mb2, p.Miner)
+		out = append(out, mutant{kind + ":same-txn-twice", mb2, ms2})
 	}
 	for _, t := range b.V2Transactions() {
 		kind := usesV2(t)
@@ -107,6 +113,11 @@ func doubleUseMutants(s *chain.Sim, p chain.BlockPlan, rng *rand.Rand) []mutant 
 		mb.V2.Transactions = append(mb.V2.Transactions, c)
 		s.Seal(&mb, p.Miner)
 		out = append(out, mutant{kind + ":other-txn", mb, ms})
+		// the very same transaction (same id, same signatures) listed twice, fees paid out twice
+		mb2, ms2 := chain.DeepCopyBlock(b), chain.CopySupp(p.Supp)
+		mb2.V2.Transactions = append(mb2.V2.Transactions, cloneV2(t))
+		s.Seal(&mb2, p.Miner)
+		out = append(out, mutant{kind + ":same-txn-twice", mb2, ms2})
 	}
 	// --- the same transaction lists an element twice
 	for i, t := range b.Transactions {
